@@ -188,6 +188,15 @@ theorem config_roundtrip {c : Config} (h : c.WellFormed) : Config.fromDict c.toD
     have := mapM_roundtrip azureResourceFromDict rs (fun r hr => azure_resource_roundtrip (by simpa using hk r hr))
     simp [Config.toDict, Config.fromDict, this, Config.mk?, hm]
 
+theorem config_roundtrip_terra {c : Config} (h : c.WellFormed) (hc : c.cloud = .azure) :
+    Config.fromDictTerra c.toDict = some c := by
+  obtain ⟨cl, mt, pre, ssd, dd, bd, jp, rs, cores, mem⟩ := c
+  obtain ⟨hm, hk⟩ := h
+  dsimp only at hm hk hc
+  subst hc
+  have := mapM_roundtrip azureResourceFromDict rs (fun r hr => azure_resource_roundtrip (by simpa using hk r hr))
+  simp [Config.toDict, Config.fromDictTerra, this, Config.mk?, hm]
+
 /-! ### azure disks -/
 
 theorem find?_sorted_min {α : Type} (key : α → Nat) (n : Nat) :
